@@ -1160,6 +1160,10 @@ def render(defs, order, sigs):
             txt += " .panic .unreachableConfig"
             L.append(txt)
             L.append("")
+    leaves = sorted(leaf for base in order for _, leaf, *_ in defs[base])
+    L += ["/-- every function body found in a template (one name per quote! branch): an extra `fn` in an impl — say an override of",
+          "`nth`, `last`, `count`, `min` … next to the hand-written `next` / `next_back` — shows up here -/",
+          "def translatedFunctions : List String := [" + ", ".join(f'"{x}"' for x in leaves) + "]", ""]
     L += ["end ET.T", ""]
     return "\n".join(L)
 
